@@ -490,6 +490,111 @@ func TestVerifReplay(t *testing.T) {
 	return out, nil
 }
 
+type diffCase struct {
+	hm    HarnessMeta
+	model map[string]string
+}
+
+// runDifferential replays sampled path models natively, one `go test` per package.
+func runDifferential(cases []diffCase) (int, []string) {
+	if len(cases) == 0 {
+		return 0, nil
+	}
+	ov, src, err := buildOverlay("native", nil)
+	if err != nil {
+		return 0, []string{err.Error()}
+	}
+	work := filepath.Join(outDir, "work", fmt.Sprintf("diff-%d-%d", os.Getpid(), time.Now().UnixNano()))
+	os.MkdirAll(work, 0o755)
+	defer os.RemoveAll(work)
+	byDir := map[string][]diffCase{}
+	for _, c := range cases {
+		byDir[c.hm.Dir] = append(byDir[c.hm.Dir], c)
+	}
+	okN := 0
+	var bad []string
+	for dir, cs := range byDir {
+		repl := map[string]string{}
+		for virt := range ov {
+			repl[virt] = src[virt]
+		}
+		pkgName := "clover"
+		if dir != "." {
+			pkgName = filepath.Base(dir)
+		}
+		var tbl strings.Builder
+		for i, c := range cs {
+			rp := Replay{Harness: c.hm.Name, Choices: map[string]int{}, Values: map[string]string{}}
+			for k, v := range c.model {
+				if strings.HasPrefix(k, "choice:") {
+					n, _ := strconv.Atoi(v)
+					rp.Choices[strings.TrimPrefix(k, "choice:")] = n
+				} else {
+					rp.Values[k] = v
+				}
+			}
+			b, _ := json.Marshal(rp)
+			f := filepath.Join(work, fmt.Sprintf("%s-%d.json", pkgName, i))
+			os.WriteFile(f, b, 0o644)
+			fmt.Fprintf(&tbl, "\t\t{%q, %q, %s},\n", c.hm.Name, f, c.hm.Name)
+		}
+		testSrc := fmt.Sprintf(`package %s
+
+import (
+	"fmt"
+	"testing"
+	"%s/zzverif/nd"
+)
+
+func TestVerifDifferential(t *testing.T) {
+	cases := []struct {
+		name, file string
+		fn         func()
+	}{
+%s	}
+	for _, c := range cases {
+		failed, panicked, assumed := nd.RunCase(c.file, c.fn)
+		fmt.Printf("VERIF-DIFF %%s failed=%%v panic=%%q assume=%%v\n", c.name, failed, panicked, assumed)
+	}
+}
+`, pkgName, modPath, tbl.String())
+		tf := filepath.Join(work, pkgName+"_diff_test.go")
+		os.WriteFile(tf, []byte(testSrc), 0o644)
+		repl[filepath.Join(repoDir, dir, "zz_verif_diff_test.go")] = tf
+		ovj, _ := json.Marshal(map[string]interface{}{"Replace": repl})
+		ovf := filepath.Join(work, pkgName+"-overlay.json")
+		os.WriteFile(ovf, ovj, 0o644)
+		cmd := exec.Command("go", "test", "-v", "-vet=off", "-count=1", "-overlay", ovf, "-run", "^TestVerifDifferential$", "-timeout", "300s", "./"+dir)
+		cmd.Dir = repoDir
+		cmd.Env = append(goEnv(), "VERIF_WORK="+work)
+		var buf bytes.Buffer
+		cmd.Stdout = &buf
+		cmd.Stderr = &buf
+		cmd.Run()
+		seen := 0
+		for _, l := range strings.Split(buf.String(), "\n") {
+			l = strings.TrimSpace(l)
+			if !strings.HasPrefix(l, "VERIF-DIFF ") {
+				continue
+			}
+			seen++
+			if strings.Contains(l, "failed=[]") && strings.Contains(l, `panic=""`) {
+				okN++
+			} else {
+				bad = append(bad, l)
+			}
+		}
+		if seen != len(cs) {
+			out := buf.String()
+			if len(out) > 600 {
+				out = out[len(out)-600:]
+			}
+			bad = append(bad, fmt.Sprintf("differential run in %s produced %d of %d results: %s", dir, seen, len(cs), out))
+		}
+	}
+	return okN, bad
+}
+
 // ---------- known findings ----------
 
 type Finding struct {
@@ -737,6 +842,8 @@ func cmdCheck(prop, tier string, only *regexp.Regexp) int {
 	expectSeen := map[string]bool{}
 	reachedBy := map[string]map[string]int{}
 	cexN := 0
+	sampleCount := map[string]int{}
+	var diffCases []diffCase
 	type groupState struct {
 		total, attempts int
 		confirmed       bool
@@ -780,6 +887,10 @@ func cmdCheck(prop, tier string, only *regexp.Regexp) int {
 		for _, s := range r.samples {
 			if len(samples) < 6 {
 				samples = append(samples, map[string]interface{}{"harness": hm.Name, "path_model": s})
+			}
+			if hm.Expect == "" && sampleCount[hm.Name] < 2 && len(diffCases) < 12 {
+				sampleCount[hm.Name]++
+				diffCases = append(diffCases, diffCase{hm: hm, model: s})
 			}
 		}
 		row := map[string]interface{}{"harness": hm.Name, "shard": r.job.shard, "package": hm.Pkg, "bounds": hm.Bounds, "paths": r.stats.Paths,
@@ -875,6 +986,15 @@ func cmdCheck(prop, tier string, only *regexp.Regexp) int {
 			if st.total > 1 {
 				notes = append(notes, fmt.Sprintf("%s: %d counterexamples with distinct shapes share this label; one was replayed and confirmed", g, st.total))
 			}
+		}
+	}
+	// engine-vs-native differential: sampled complete paths (a model of each path condition) are replayed
+	// against the real build; the engine found every assertion to hold on them, so the native run must too
+	if os.Getenv("VERIF_NO_DIFF") == "" {
+		okN, bad := runDifferential(diffCases)
+		replayed += okN
+		for _, b := range bad {
+			inconclusive = append(inconclusive, "ENGINE-DISCREPANCY (sampled path behaves differently natively): "+b)
 		}
 	}
 	// vacuity: every harness must have reached at least one Reach label; twins must be violated
